@@ -281,6 +281,7 @@ Laws ==
                  ApplyCall(ApplyCall(Cfg, c1), c2) = ApplyCall(ApplyCall(Cfg, c2), c1)          \* setters commute with adders
 ASSUME FciLaws ==
     /\ \A a \in NackHists : FciCfg([f |-> "nack", adds |-> a]).set = ToSet(a)
+    /\ \A a \in NackHists : NackWords(ToSet(a)) = NackWordsRec(ToSet(a))
     /\ \A a \in FirHists :
           LET m == FciCfg([f |-> "fir", adds |-> a]).map
           IN  /\ \A i, j \in 1..Len(m) : i # j => m[i][1] # m[j][1]                                \* one entry per SSRC
